@@ -170,7 +170,7 @@ impl Runner {
         let mut cmd = Command::new(&launcher);
         cmd.arg(if case.plan.aslr { "1" } else { "0" })
             .arg("60")
-            .arg(format!("{}", 2u64 << 30))
+            .arg(format!("{}", 1u64 << 30))
             .arg(&self.bin)
             .args(&argv)
             .current_dir(&self.root)
